@@ -22,7 +22,9 @@
      the height below the arguments (C18_run_function_enters).
    * error wrapping as TaskFailure{registered name} for every native (C18_native_error_wrapped), unknown names;
      run_function restores the caller's stack and frames once the callee reaches its Return with them intact
-     (C18_reentry_balanced_partial).
+     (C18_reentry_balanced_partial); for a RESTRICTED class of callees - body = straight-line ScalarNil / CopyLast /
+     Pop that never pops below its frame base, then Return - the callee provably gets there, so run_function is
+     balanced outright (C18_reentry_balanced_straightline).
    * registration: the table after ANY history of public registrations = the last accepted registration per
      handle (C18_registry_history: a later registration of a name replaces name and function,
      C18_registration_replaces); rejected exactly the names starting with "__" (C18_registry_answers,
@@ -33,13 +35,13 @@
      Vm::new + the registrations of the harness give exactly the lookup Vm.find_native that call_native uses
      (C18_menu_registry_is_find_native).
    Witnesses (hypotheses satisfiable, concrete runs): Cao.VmNativeMenuWitness.
-   NOT proved, claimed by the correspondence run only: the missing half of reentry_balanced (the callee's body keeps
-   the caller's part of the stack and the frames below its own intact up to its Return: frame discipline of
-   compiled code; checked by the rb1 oracle, code 2); that the bodies [native_fn] / the menu are the Rust functions
+   NOT proved, claimed by the correspondence run only: the missing half of reentry_balanced for callees outside that
+   class (the body of ANY compiled callee keeps the caller's part of the stack and the frames below its own intact
+   up to its Return: frame discipline of compiled code; checked by the rb1 oracle, code 2); that the bodies [native_fn] / the menu are the Rust functions
    of vmrun.rs / stdlib.rs (code 1 on the host log, conv_spec oracle code 2 on the recorded invocations); the
    allocation failure of HandleTable::grow during a registration is outside the registry model. *)
 From Coq Require Import NArith ZArith List Lia.
-From Cao Require Import Stacks Bits Vm VmProofs VmNativeProofs VmNativeMenu VmNativeMenuProofs VmRegistry VmRegistryProofs.
+From Cao Require Import Stacks Bits Vm VmProofs VmNativeProofs VmNativeMenu VmNativeMenuProofs VmRegistry VmRegistryProofs VmReentryPushes.
 Import ListNotations.
 
 (* sub2(a: i64, b: i64) called with the stack l ++ [v1; v2]: a = conv v1 (declared first), b = conv v2; exactly
@@ -393,3 +395,31 @@ Theorem C18_menu_registry_is_find_native : forall h,
     end.
 Proof. exact menu_registry_is_find_native. Qed.
 Print Assumptions C18_menu_registry_is_find_native.
+
+(* reentry_balanced for a restricted class of callees: the body is [body] = ScalarNil (7) / CopyLast (9) / Pop (16)
+   in any order such that no Pop goes below the frame base ([body_height] from the |args| values above it) and at
+   least one value is above the base at the end, followed by Return (22); budget (|body| + 3) and stack room
+   suffice and no upvalue is open.  Then run_function (nested `_run` = the real dispatch loop with enough fuel)
+   returns a value, leaves exactly the caller's  l  on the value stack and exactly the caller's frames. *)
+Theorem C18_reentry_balanced_straightline :
+  forall F bld P re0 cn (a : N) (s : state) (l args : list value) h ar ups (is_clo : bool) src
+         (body : list N) (hh fuel : nat),
+  let re := fun ip st => loop F bld P re0 (length body + S (S fuel)) ip st in
+  stack_ok s -> stack_of s = l ++ args -> length args = N.to_nat ar ->
+  hget (st_heap s) a = Some (callee_obj is_clo h ar ups) ->
+  assoc h (p_labels P) = Some src ->
+  S (length (st_calls s)) < call_stack_size ->
+  (code_len P <> 0)%N ->
+  nth (N.to_nat (last_pos P)) (p_code P) 255%N = 10%N ->
+  st_open s = None ->
+  body_height body (length args) = Some (S hh) ->
+  (forall i, i < length body -> nth (N.to_nat src + i) (p_code P) 255%N = nth i body 255%N) ->
+  nth (N.to_nat src + length body) (p_code P) 255%N = 22%N ->
+  N.to_nat src + length body < length (p_code P) ->
+  (N.of_nat (length body) + 3 <= st_rem s)%N ->
+  length l + length args + length body + 1 < cap s ->
+  exists v s',
+    run_function P re cn (VObj a) s = NOk v s' /\
+    stack_ok s' /\ stack_of s' = l /\ st_calls s' = st_calls s.
+Proof. exact reentry_balanced_straightline. Qed.
+Print Assumptions C18_reentry_balanced_straightline.
